@@ -148,6 +148,32 @@ fn values(tier: Tier, f: &mut dyn FnMut(String)) {
             }
         }
     }
+    // numerators and denominators at the edges of the machine words (2^k - 1, 2^k, 2^k + 1), a tenth
+    // of them (where `x * 10` first leaves the word), and powers of ten of 19 and 20 digits
+    {
+        let one = BigInt::from(1);
+        let mut dens: Vec<BigInt> = Vec::new();
+        for k in [8usize, 16, 31, 32, 53, 63, 64, 65, 127, 128] {
+            let two = num::pow(BigInt::from(2), k);
+            for d in [&two - &one, two.clone(), &two + &one] {
+                dens.push(&d / BigInt::from(10));
+                dens.push(&d / BigInt::from(10) + &one);
+                dens.push(d);
+            }
+        }
+        for k in [18usize, 19, 20] {
+            let t = num::pow(BigInt::from(10), k);
+            dens.push(t.clone());
+            dens.push(&t * BigInt::from(3));
+        }
+        for d in &dens {
+            for n in [one.clone(), BigInt::from(3), d - &one, d + &one, d * BigInt::from(7) + &one] {
+                f(format!("{n}/{d}"));
+                f(format!("-{n}/{d}"));
+                f(format!("{d}/{n}"));
+            }
+        }
+    }
     // long exact decimals straddling digit budgets
     for s in ["1234567/10000000", "12345678901234/10", "1234567/2", "99999999999999/100", "1/1024", "12345678901234567890123/1"] {
         f(s.to_string());
@@ -220,7 +246,7 @@ impl Prop for C08 {
         false
     }
     fn rule(&self) -> String {
-        "values: all reduced p/q with |p|<=60,q<=24 (thorough |p|<=200,q<=60); (p/q)*10^k for p,q<=12, both signs, k over a 21-point ladder in -40..40 (thorough every k in -40..40); 10^k+{-1,0,1} with and without fractional tails for k<=20; long exact decimals; each case = one value, bulk-formatted under every display spec limit x exponent_limit (quick 7x6 specs, thorough 20x15) with the continuation mark on, and with it off for the truncation clause. The printed text is re-read (own reader) and must be the value cut toward zero at its last digit, right sign, mark iff something non-zero was cut. evaluations counts (value,spec,mark-mode) triples; non-trivial = the value is not an integer of <= limit digits (something could be cut); distinct by construction (distinct reduced values x distinct specs)".into()
+        "values: all reduced p/q with |p|<=60,q<=24 (thorough |p|<=200,q<=60); (p/q)*10^k for p,q<=12, both signs, k over a 21-point ladder in -40..40 (thorough every k in -40..40); 10^k+{-1,0,1} with and without fractional tails for k<=20; numerators and denominators at the machine-word edges (2^k-1, 2^k, 2^k+1 for ten k from 8 to 128, a tenth of each, 10^18..10^20 and three times those, each under five numerators, both signs and inverted); long exact decimals; each case = one value, bulk-formatted under every display spec limit x exponent_limit (quick 7x6 specs, thorough 20x15) with the continuation mark on, and with it off for the truncation clause. The printed text is re-read (own reader) and must be the value cut toward zero at its last digit, right sign, mark iff something non-zero was cut. evaluations counts (value,spec,mark-mode) triples; non-trivial = the value is not an integer of <= limit digits (something could be cut); distinct by construction (distinct reduced values x distinct specs)".into()
     }
     fn assumptions(&self) -> Vec<String> {
         vec!["magnitudes between the ladder's points behave like the points".into(), "DisplaySpec is constructed via Default + public fields, as src/bin/any.rs does".into()]
